@@ -216,6 +216,12 @@ func (m *mappers) ToCharRange(r comb.Result) (comb.Result, bool) {
 		// The input syntax is correct while its semantic is incorrect
 		// We continue parsing the rest of input to find more errors
 		m.errors = errors.Join(m.errors, fmt.Errorf("invalid character range %s-%s", string(low), string(up)))
+	} else {
+		// Only the characters of the ASCII table are supported in character groups, and ToCharGroup rejects all others.
+		// One unsupported character is enough for that, so the range is enumerated no further than the first character
+		// on either side of the table (a range such as a-\x7FFFFFFF cannot be enumerated).
+		first, last := rune(-1), rune(len(parser.RuneClasses["ASCII"].Runes()))
+		low, up = min(max(low, first), last), min(max(up, first), last)
 	}
 
 	node, chars := runeRangesToAlt(false, [2]rune{low, up})
